@@ -664,8 +664,11 @@ def as_scope(res, pid, rng, tier):
     try:
         ow_, _ = run_lines(fa.FaCfg(salt="ws", asn=[nw]), wl_)
         res.evaluations += len(wl_)
+        m0_ = re.fullmatch(r"router bgp (\d+)\n", ow_[0])
+        r0_ = m0_.group(1) if m0_ else nw
         for a_, b_ in zip(wl_, ow_):
-            if re.sub(r"\d+", "#", a_.replace("10.0.0.1", "ADDR")) != re.sub(r"\d+", "#", b_.replace("10.0.0.1", "ADDR")):
+            # every maximal digit run equal to the listed number (an octet of the address too, when it is one) becomes its replacement
+            if m0_ is None or re.sub(r"\d+", lambda m: r0_ if m.group() == nw else m.group(), a_) != b_:
                 fails.append({"kind": "text other than a listed AS number changed (white space between the words)", "as_numbers": [nw], "lines": wl_,
                               "line": a_, "output": b_})
                 break
